@@ -476,6 +476,8 @@ impl ContinuityStore {
             .event_log
             .replay_stream(StreamKind::Continuity, continuity_id)?;
         if !events.is_empty() {
+            #[cfg(rip_verif)]
+            rip_kernel::verif::point("replay.rebuild");
             self.stream_cache
                 .rebuild_best_effort(continuity_id, &events);
         }
